@@ -87,8 +87,9 @@ def gen_reqs(r, n):
     keys = r.shuffle(KEYS)[:r.rng(2, 4)]
     if r.chance(1, 2):
         # a long key with multi-byte characters at every alignment around 16 / 32 / 64 / 128
-        n = r.choice([r.rng(0, 140), 14, 15, 30, 31, 32, 62, 63, 64, 126, 127, 128])
-        keys.append(b"a" * n + "é€😀".encode() * 2 + b":p")
+        ln = r.choice([r.rng(0, 140), 14, 15, 30, 31, 32, 62, 63, 64, 126, 127, 128])
+        keys.append(b"a" * ln + "é€😀".encode() * 2 + b":p")
+        n = r.choice([n, n, r.rng(20, 140)])         # and sometimes a long session
     out = []
     for _ in range(n):
         k = r.below(10)
@@ -117,3 +118,62 @@ def cut(r, data, mode):
             segs.append(data[prev:p])
         prev = p
     return segs
+
+
+# ---------------------------------------------------------------- the crate's own client (src/net/client.rs)
+def coq_req(q, coq_bytes):
+    if q[0] == "GET":
+        return "RqGet %s" % coq_bytes(q[1])
+    if q[0] == "SET":
+        return "RqSet %s %s" % (coq_bytes(q[1]), coq_bytes(q[2]))
+    return "RqDel [%s]" % "; ".join(coq_bytes(k) for k in q[1])
+
+
+def api_words(q):
+    if q[0] == "GET":
+        return "get %s" % G.rawhex(q[1])
+    if q[0] == "SET":
+        return "set %s %s" % (G.rawhex(q[1]), G.rawhex(q[2]))
+    return "del %s" % " ".join(G.rawhex(k) for k in q[1])
+
+
+def gen_fake_session(r):
+    """calls of one client session against a scripted server: [(request, reply segments, close)], the kinds used"""
+    reqs, _ = gen_reqs(r, r.rng(1, 6))
+    reqs = reqs[:8]
+    calls, kinds, carry = [], [], False
+    for i, q in enumerate(reqs):
+        if carry:                      # the previous reply carried this call's frame already
+            calls.append((q, [], False))
+            kinds.append("carried")
+            carry = False
+            continue
+        k = r.below(12)
+        close = False
+        if k < 4:                      # the kind of frame the call expects (content arbitrary)
+            f = {"SET": ("S", b"OK"), "GET": r.choice([("B", G.gen_bulk(r)), ("N",), ("B", gen_value(r))]),
+                 "DEL": ("I", r.choice(G.INTS))}[q[0]]
+            data, kind = G.enc(f), "expected"
+        elif k == 4:
+            data, kind = G.enc(("E", r.choice([b"ERR something", b"", "f\u00e9".encode(), b"x" * 70]))), "error"
+        elif k < 7:                    # a well-formed frame of another kind
+            f = r.choice([("S", b"ok"), ("S", b"OK "), ("S", b""), ("I", 7), ("N",), ("B", b"OK"), ("A", []), ("A", [("B", b"v")]),
+                          G.gen_tree(r, 2)])
+            data, kind = G.enc_any(f), "other-frame"
+        elif k == 7:                   # two frames at once: the second answers the next call
+            f1 = {"SET": ("S", b"OK"), "GET": ("B", b"one"), "DEL": ("I", 1)}[q[0]]
+            data, kind = G.enc(f1) + G.enc_any(G.gen_tree(r, 1)), "double"
+            carry = i + 1 < len(reqs)
+        elif k == 8:                   # the connection ends inside a frame
+            full = G.enc(("B", b"truncated value"))
+            data, kind, close = full[:r.rng(1, len(full) - 1)], "truncated", True
+        elif k == 9:                   # the connection ends between frames
+            data, kind, close = b"", "eof", True
+        else:                          # not RESP
+            data, kind, close = r.choice([G.gen_garbage(r), G.mutate(r, G.enc(G.gen_leaf(r))), b"!x\r\n", b":12a\r\n", b"$-2\r\n"]), "malformed", True
+        segs = cut(r, data, r.choice(["whole", "random", "crlf", "bytes"])) if len(data) < 200 else cut(r, data, r.choice(["whole", "random"]))
+        calls.append((q, [s for s in segs if s], close))
+        kinds.append(kind)
+        if close:
+            break
+    return calls, kinds
